@@ -289,9 +289,16 @@ fn i8_one<A: I8Arith>(name: &str, a: &mut A, case: &I8Case, p: &mut Probe) -> Ch
 }
 
 fn check_i8(case: &I8Case, p: &mut Probe) -> Check {
+    let moved = (case.msgs.len() * 7 + case.row.len() * 3 + case.input as u8 as usize) % 16 == 5;
+    p.class_if(moved, "object-used-on-another-thread");
     macro_rules! all {
         ($($t:ident),*) => {
-            $( i8_one(stringify!($t), &mut super::impls::mk(<$t>::new, (case.input as u8 ^ case.msgs.len() as u8) & 1 == 1), case, p)?; p.inner += 1; )*
+            $( {
+                let mut a = super::impls::mk(<$t>::new, (case.input as u8 ^ case.msgs.len() as u8) & 1 == 1);
+                // one case in sixteen: the object built here is used on another thread
+                if moved { on_other_thread(|| i8_one(stringify!($t), &mut a, case, p))?; } else { i8_one(stringify!($t), &mut a, case, p)?; }
+                p.inner += 1;
+            } )*
         };
     }
     crate::with_i8_types!(all);
@@ -460,11 +467,21 @@ fn f_one<F: Fl, A: FArith<F>>(name: &str, a: &mut A, case: &FCase, p: &mut Probe
 }
 
 fn check_f(case: &FCase, p: &mut Probe) -> Check {
+    let moved = (case.msgs.len() * 7 + case.olds.len() * 3) % 16 == 5;
+    p.class_if(moved, "object-used-on-another-thread");
     macro_rules! all64 {
-        ($($t:ident),*) => { $( f_one::<f64, $t>(stringify!($t), &mut super::impls::mk(<$t>::new, case.msgs.len() % 2 == 1), case, p)?; p.inner += 1; )* };
+        ($($t:ident),*) => { $( {
+            let mut a = super::impls::mk(<$t>::new, case.msgs.len() % 2 == 1);
+            if moved { on_other_thread(|| f_one::<f64, $t>(stringify!($t), &mut a, case, p))?; } else { f_one::<f64, $t>(stringify!($t), &mut a, case, p)?; }
+            p.inner += 1;
+        } )* };
     }
     macro_rules! all32 {
-        ($($t:ident),*) => { $( f_one::<f32, $t>(stringify!($t), &mut super::impls::mk(<$t>::new, case.msgs.len() % 2 == 1), case, p)?; p.inner += 1; )* };
+        ($($t:ident),*) => { $( {
+            let mut a = super::impls::mk(<$t>::new, case.msgs.len() % 2 == 1);
+            if moved { on_other_thread(|| f_one::<f32, $t>(stringify!($t), &mut a, case, p))?; } else { f_one::<f32, $t>(stringify!($t), &mut a, case, p)?; }
+            p.inner += 1;
+        } )* };
     }
     crate::with_f64_types!(all64);
     crate::with_f32_types!(all32);
